@@ -1,28 +1,493 @@
 """C01 - Box definitions and coordinate maps agree."""
 from __future__ import annotations
 
+import copy
+import inspect
+
 import numpy as np
 
 from ..core import fingerprint
-from ..gen import cells
+from ..gen import c01_cells as C
 from ..oracle import geometry as G
+from ..oracle import c01_faces as F
 from .. import monitor
 
 # monitors are self-sufficient (judge a call from its arguments and result): the repository's own tests run under them
 # as an extra workload in the thorough tier (vf/repotests.py)
 REPOTESTS = True
 
-RULE = ('cells are generated round-robin over 9 kinds (7 crystal families in LAMMPS form, strongly tilted, '
-        'randomly rotated) x 3 origin classes x 3 length scales; a case is non-trivial when the cell is not the '
-        'unit cube at the origin and at least one tilt/angle/origin component is non-zero; distinct = distinct '
-        'fingerprint of (vectors, origin).  Histories are sequences of 3-8 set_* calls on one object.')
+RULE = ('boxes: cells round-robin over 9 kinds (7 crystal families in LAMMPS form, strongly tilted, randomly rotated) '
+        'x 4 origin classes (0, O(L), O(1e3 L), O(1e5..1e6 L)) x 4 length scales (1, 1e-10, 1e4, 1e-4); every ordered '
+        'pair of parameter sets is round-tripped, family constructors included; points in 6 leading shapes x 11 '
+        'argument forms (float64 contiguous / strided view / Fortran order / read-only, float32, int64, int32, list, '
+        'tuple, int list, int tuple).  forms: the same cell handed over in every array form and scalar form.  '
+        'histories: 3-8 changes on ONE Box, change kind a function of (case, step) over 26 kinds (vects setter, vects setter changing one vector only, origin '
+        'setter alone, set(origin) alone, set(), set(vects[,origin]), set_vectors/set_abc/set_lengths/set_hi_los with '
+        'origin given / omitted / defaults omitted / positional, set(...) of each parameter set), each step at its own '
+        'length scale and origin class; after each change every kind of read (state, getters, reciprocal vectors, '
+        'planes, both conversions, inside/outside with both inclusive settings, exact face points) in random order, '
+        'judged against the oracle and against a freshly built Box of the same cell, with a bystander Box alive.  '
+        'A case is non-trivial when the cell is not the unit cube at the origin; distinct = distinct fingerprint.')
 ASSUMPTIONS = ['cells are right-handed with volume >= 10% of a*b*c (condition number < ~1e2)',
-               'points closer than the stated bound to a face are exempt from the inside clause',
+               'points closer than the stated bound (1e-8 (1 + |origin|/L) in relative coordinates) to a face are exempt '
+               'from the inside/outside clause; the inclusive flag itself is judged on axis-aligned cells with points '
+               'whose face coordinate is exactly the floating-point number of the face',
+               'float32 scalars given to set_abc carry float32 rounding through the trigonometry: bound 1e-5 relative',
                'oracle shares numpy/LAPACK with the code under test']
 
 SETS = ('vectors', 'abc', 'lengths', 'hilo')
+FAMILY_CTORS = ('cubic', 'tetragonal', 'orthorhombic', 'hexagonal', 'rhombohedral', 'monoclinic', 'triclinic')
 
 
+# =====================================================================================================================
+# argument snapshots (the caller's objects must come back unchanged)
+# =====================================================================================================================
+def snapshot(x):
+    if isinstance(x, np.ndarray):
+        return ('nd', x.copy(), x.dtype, x.shape, x.strides, bool(x.flags.writeable))
+    if isinstance(x, (list, tuple)):
+        return ('seq', type(x), [snapshot(y) for y in x])
+    if isinstance(x, dict):
+        return ('dict', {k: snapshot(v) for k, v in x.items()})
+    return ('val', copy.copy(x))
+
+
+def same(snap, x):
+    kind = snap[0]
+    if kind == 'nd':
+        return (isinstance(x, np.ndarray) and x.dtype == snap[2] and x.shape == snap[3] and x.strides == snap[4]
+                and bool(x.flags.writeable) == snap[5] and np.array_equal(x, snap[1], equal_nan=x.dtype.kind == 'f'))
+    if kind == 'seq':
+        return type(x) is snap[1] and len(x) == len(snap[2]) and all(same(s, y) for s, y in zip(snap[2], x))
+    if kind == 'dict':
+        return isinstance(x, dict) and set(x) == set(snap[1]) and all(same(s, x[k]) for k, s in snap[1].items())
+    try:
+        return type(x) is type(snap[1]) and bool(x == snap[1] or (x != x and snap[1] != snap[1]))
+    except Exception:
+        return True
+
+
+def is_arraylike(x):
+    return isinstance(x, (np.ndarray, list, tuple))
+
+
+def scribble(x):
+    """Overwrite a harness-owned argument / result object in place (afterwards the Box must not have changed)."""
+    if isinstance(x, np.ndarray):
+        if x.flags.writeable and x.size:
+            x[...] = -7.7e7 if x.dtype.kind == 'f' else -77
+    elif isinstance(x, list):
+        for j in range(len(x)):
+            if isinstance(x[j], (list, np.ndarray)):
+                scribble(x[j])
+            else:
+                x[j] = -7.7e7
+
+
+# =====================================================================================================================
+# monitors on the real entry points
+# =====================================================================================================================
+def _loose(*vals):
+    """Relative rounding unit of the narrowest floating type among the given scalars/arrays (float64 if none)."""
+    eps = np.finfo(float).eps
+    for v in vals:
+        dt = getattr(v, 'dtype', None)
+        if dt is not None and dt.kind == 'f':
+            eps = max(eps, np.finfo(dt).eps)
+    return float(eps)
+
+
+def _finite(*vals):
+    try:
+        return all(np.all(np.isfinite(np.asarray(v, float))) for v in vals)
+    except Exception:
+        return False
+
+
+def install_monitors(rec, am):
+    """Postcondition monitors on the real Box / Plane / Shape methods (fire on every call, including the ones atomman
+    makes internally).  Each judges the call from its arguments, its result and the public state of the object."""
+    Box = am.Box
+    from atomman.region import Plane, Shape
+
+    sigs = {n: inspect.signature(Box.__dict__[n]) for n in ('set_vectors', 'set_abc', 'set_lengths', 'set_hi_los',
+                                                            'inside', 'position_relative_to_cartesian',
+                                                            'position_cartesian_to_relative')}
+    sigs['outside'] = inspect.signature(Shape.__dict__['outside'])
+    sigs['below'] = inspect.signature(Plane.__dict__['below'])
+    sigs['above'] = inspect.signature(Plane.__dict__['above'])
+
+    def bound(name, args, kwargs):
+        b = sigs[name].bind(*args, **kwargs)
+        b.apply_defaults()
+        return b.arguments
+
+    def pos_inclusive(name, args, kwargs):
+        """(pos, inclusive) of inside/outside/below/above calls without the cost of Signature.bind on the hot path"""
+        if len(args) <= 3 and set(kwargs) <= {'pos', 'inclusive'}:
+            pos = args[1] if len(args) > 1 else kwargs['pos']
+            inclusive = args[2] if len(args) > 2 else kwargs.get('inclusive', sigs[name].parameters['inclusive'].default)
+            return pos, bool(inclusive)
+        b = bound(name, args, kwargs)
+        return b['pos'], bool(b['inclusive'])
+
+    # -- the caller's arguments are unchanged ------------------------------------------------------------------------
+    def pre_args(entry):
+        def pre(args, kwargs):
+            watched = [(f'arg{j}', a) for j, a in enumerate(args[1:]) if is_arraylike(a)]
+            watched += [(k, a) for k, a in kwargs.items() if is_arraylike(a)]
+            return [(n, a, snapshot(a)) for n, a in watched]
+        return pre
+
+    def judge_args(entry, old):
+        if not isinstance(old, list):
+            return
+        for n, a, snap in old:
+            form = C.form_of(a)
+            rec.count(f'args:{entry}:{form}')
+            rec.check(same(snap, a), "the caller's argument objects are unchanged by the call",
+                      f'args-unchanged:{entry}:{form}', entry=entry, argument=n, before=snap[1] if snap[0] == 'nd' else None,
+                      after=a)
+
+    def state(box):
+        v, o = box.vects, box.origin
+        return v, o, np.linalg.norm(v, axis=1).max()
+
+    def in_domain(v):
+        """right-handed, non-degenerate, finite"""
+        (a0, a1, a2), (b0, b1, b2), (c0, c1, c2) = v.tolist()
+        vol = a0 * (b1 * c2 - b2 * c1) - a1 * (b0 * c2 - b2 * c0) + a2 * (b0 * c1 - b1 * c0)     # a . (b x c)
+        abc = ((a0 * a0 + a1 * a1 + a2 * a2) * (b0 * b0 + b1 * b1 + b2 * b2) * (c0 * c0 + c1 * c1 + c2 * c2)) ** 0.5
+        return bool(np.isfinite(vol) and np.isfinite(abc) and abc > 0 and vol > 1e-6 * abc)
+
+    # -- conversions -------------------------------------------------------------------------------------------------
+    def post_r2c(args, kwargs, result, exc, old):
+        judge_args('rel2cart', old)
+        if exc is not None:
+            return
+        box = args[0]
+        relpos = np.asarray(bound('position_relative_to_cartesian', args, kwargs)['relpos'], float)
+        v, o, L = state(box)
+        tol = 1e-9 * (L * (1 + np.abs(relpos).max(initial=0)) + np.abs(o).max())
+        rec.close(tol, result, G.cart(relpos, v, o), 'monitor: relative->Cartesian postcondition', 'monitor:rel2cart')
+
+    def post_c2r(args, kwargs, result, exc, old):
+        judge_args('cart2rel', old)
+        if exc is not None:
+            return
+        box = args[0]
+        cartpos = np.asarray(bound('position_cartesian_to_relative', args, kwargs)['cartpos'], float)
+        v, o, L = state(box)
+        exp = G.rel(cartpos, v, o)
+        tol = 1e-9 * (1 + np.abs(o).max() / L) * (1 + np.abs(exp).max(initial=0))
+        rec.close(tol, result, exp, 'monitor: Cartesian->relative postcondition', 'monitor:cart2rel')
+
+    # -- inside / outside --------------------------------------------------------------------------------------------
+    def judge_membership(box, pos, inclusive, result, outside):
+        v, o, L = state(box)
+        if not in_domain(v):
+            rec.count('monitor:inside:out-of-domain')
+            return
+        p = np.asarray(pos, float)
+        if p.ndim == 0 or p.shape[-1] != 3:
+            return
+        cond = np.linalg.cond(v)
+        bnd = 1e-8 * (1 + np.abs(o).max() / L) * max(1.0, cond / 10)
+        rel, exp_in, exempt = F.classify(p, v, o, bnd)
+        got = np.asarray(result)
+        what = 'outside' if outside else 'inside'
+        if not rec.check(got.shape == p.shape[:-1] and got.dtype == bool,
+                         f'monitor: {what} returns one bool per point (leading shape of the input)', f'monitor:{what}:shape',
+                         got_shape=got.shape, got_dtype=str(got.dtype), points_shape=p.shape):
+            return
+        got = got.reshape(-1)
+        exp = ~exp_in if outside else exp_in
+        ok = (got == exp) | exempt
+        rec.count(f'monitor:{what}:points-judged', int((~exempt).sum()))
+        rec.check(ok.all(), f'monitor: {what}(p) decides "all relative coordinates in [0,1]" (points beyond the bound from every face)',
+                  f'monitor:{what}:{"incl" if inclusive else "excl"}', rel=rel[~ok][:3], got=got[~ok][:3], vects=v, origin=o)
+
+    def post_inside(args, kwargs, result, exc, old):
+        judge_args('inside', old)
+        if exc is not None or not isinstance(args[0], Box):
+            return
+        pos, inclusive = pos_inclusive('inside', args, kwargs)
+        judge_membership(args[0], pos, inclusive, result, outside=False)
+
+    def post_outside(args, kwargs, result, exc, old):
+        judge_args('outside', old)
+        if exc is not None:
+            return
+        pos, inclusive = pos_inclusive('outside', args, kwargs)
+        shape = args[0]
+        if isinstance(shape, Box):
+            judge_membership(shape, pos, inclusive, result, outside=True)
+        else:
+            try:
+                comp = ~np.asarray(shape.inside(pos, inclusive=not inclusive))
+            except Exception:
+                return
+            rec.check(np.array_equal(np.asarray(result), comp), 'monitor: Shape.outside(p, inclusive) is the complement of inside(p, not inclusive)',
+                      'monitor:outside:complement:' + type(shape).__name__)
+
+    # -- Plane.below / above -----------------------------------------------------------------------------------------
+    def judge_plane(plane, pos, inclusive, result, above):
+        n, pt = np.asarray(plane.normal, float), np.asarray(plane.point, float)
+        p = np.asarray(pos, float)
+        if p.ndim == 0 or p.shape[-1] != 3 or n.shape != (3,) or pt.shape != (3,):
+            return
+        d = np.asarray((p - pt) @ n)            # distance from the plane times |n| (>0): its sign is the side
+        if not np.all(np.isfinite(d)):
+            return
+        band = 1e-9 * (np.abs(p).max(initial=0) + np.abs(pt).max()) * np.abs(n).max() * 3 + 1e-300
+        exempt = np.abs(d) <= band
+        exp = d > 0 if above else d < 0
+        got = np.asarray(result)
+        if got.shape != exp.shape:
+            rec.fail('monitor: Plane.below/above return one bool per point', 'monitor:plane:shape', got_shape=got.shape, exp_shape=exp.shape)
+            return
+        ok = (got == exp) | exempt
+        rec.count('monitor:plane:points-judged', int(np.sum(~exempt)))
+        rec.check(bool(np.all(ok)), 'monitor: Plane.below/above decide the sign of the distance from the plane',
+                  f'monitor:plane:{"above" if above else "below"}:{"incl" if inclusive else "excl"}',
+                  normal=n, point=pt, distance=d[~ok].reshape(-1)[:3])
+
+    def post_below(args, kwargs, result, exc, old):
+        judge_args('Plane.below', old)
+        if exc is None:
+            pos, inclusive = pos_inclusive('below', args, kwargs)
+            judge_plane(args[0], pos, inclusive, result, above=False)
+
+    def post_above(args, kwargs, result, exc, old):
+        judge_args('Plane.above', old)
+        if exc is None:
+            pos, inclusive = pos_inclusive('above', args, kwargs)
+            judge_plane(args[0], pos, inclusive, result, above=True)
+
+    # -- set_* -------------------------------------------------------------------------------------------------------
+    def expect_origin(origin):
+        return np.zeros(3) if origin is None else np.asarray(origin, float)
+
+    def judge_state(box, exp_v, exp_o, what, eps):
+        if not _finite(exp_v, exp_o):
+            return
+        v, o, L = state(box)
+        Lm = max(np.abs(exp_v).max(), 1e-300)
+        rec.close(2e-9 * Lm + 64 * eps * Lm, v, exp_v, f'monitor: vectors after {what} are the ones given', f'monitor:{what}:vects')
+        rec.close(64 * eps * max(np.abs(exp_o).max(), 1e-300), o, exp_o, f'monitor: origin after {what} is the one given (default 0,0,0)',
+                  f'monitor:{what}:origin')
+
+    def post_set_vectors(args, kwargs, result, exc, old):
+        judge_args('set_vectors', old)
+        if exc is not None:
+            return
+        b = bound('set_vectors', args, kwargs)
+        try:
+            exp_v = np.array([np.asarray(b[k], float) for k in ('avect', 'bvect', 'cvect')])
+        except Exception:
+            return
+        if exp_v.shape == (3, 3):
+            judge_state(args[0], exp_v, expect_origin(b['origin']), 'set_vectors', np.finfo(float).eps)
+
+    def post_set_lengths(args, kwargs, result, exc, old):
+        judge_args('set_lengths', old)
+        if exc is not None:
+            return
+        b = bound('set_lengths', args, kwargs)
+        try:
+            vals = [float(b[k]) for k in ('lx', 'ly', 'lz', 'xy', 'xz', 'yz')]
+        except Exception:
+            return
+        judge_state(args[0], G.vects_from_lammps(*vals), expect_origin(b['origin']), 'set_lengths', np.finfo(float).eps)
+
+    def post_set_hi_los(args, kwargs, result, exc, old):
+        judge_args('set_hi_los', old)
+        if exc is not None:
+            return
+        b = bound('set_hi_los', args, kwargs)
+        try:
+            lo = np.array([float(b[k]) for k in ('xlo', 'ylo', 'zlo')])
+            hi = np.array([float(b[k]) for k in ('xhi', 'yhi', 'zhi')])
+            tilts = [float(b[k]) for k in ('xy', 'xz', 'yz')]
+        except Exception:
+            return
+        if not _finite(lo, hi, tilts):
+            return
+        eps = _loose(*[b[k] for k in ('xlo', 'xhi', 'ylo', 'yhi', 'zlo', 'zhi')])
+        box = args[0]
+        v, o, L = state(box)
+        exp_v = G.vects_from_lammps(*(hi - lo), *tilts)
+        mag = max(np.abs(lo).max(), np.abs(hi).max(), 1e-300)
+        rec.close(2e-9 * np.abs(exp_v).max() + 8 * eps * mag, v, exp_v, 'monitor: vectors after set_hi_los are (hi-lo, tilts)', 'monitor:set_hi_los:vects')
+        rec.close(8 * eps * mag, o, lo, 'monitor: origin after set_hi_los is (xlo, ylo, zlo)', 'monitor:set_hi_los:origin')
+
+    def post_set_abc(args, kwargs, result, exc, old):
+        judge_args('set_abc', old)
+        if exc is not None:
+            return
+        b = bound('set_abc', args, kwargs)
+        try:
+            p = [float(b[k]) for k in ('a', 'b', 'c', 'alpha', 'beta', 'gamma')]
+        except Exception:
+            return
+        if not _finite(p) or min(p[:3]) <= 0 or not G.realisable(p[3], p[4], p[5], 1e-3):
+            rec.count('monitor:set_abc:out-of-domain')
+            return
+        eps = _loose(*[b[k] for k in ('a', 'b', 'c', 'alpha', 'beta', 'gamma')])
+        box = args[0]
+        v, o, L = state(box)
+        Lm = max(p[:3])
+        rec.close((1e-8 + 64 * eps) * Lm * Lm, v @ v.T, F.gram_from_abc(*p), 'monitor: cell after set_abc has the lengths and angles given (metric tensor)',
+                  'monitor:set_abc:gram')
+        rec.check(v[0, 1] == 0 and v[0, 2] == 0 and v[1, 2] == 0 and v[0, 0] > 0 and v[1, 1] > 0 and v[2, 2] > 0,
+                  'monitor: cell after set_abc is in LAMMPS orientation (right-handed)', 'monitor:set_abc:orientation', vects=v)
+        eo = expect_origin(b['origin'])
+        if _finite(eo):
+            rec.close(64 * np.finfo(float).eps * max(np.abs(eo).max(), 1e-300), o, eo, 'monitor: origin after set_abc is the one given (default 0,0,0)',
+                      'monitor:set_abc:origin')
+
+    def pre_set(args, kwargs):
+        box = args[0]
+        return dict(args=pre_args('set')(args, kwargs), vects=box.vects, origin=box.origin)
+
+    def post_set(args, kwargs, result, exc, old):
+        if not isinstance(old, dict):
+            return
+        judge_args('set', old['args'])
+        if exc is not None or len(args) != 1:
+            return
+        box = args[0]
+        eps = np.finfo(float).eps
+        try:
+            if len(kwargs) == 0:
+                judge_state(box, np.eye(3), np.zeros(3), 'set()', eps)
+            elif set(kwargs) == {'origin'}:
+                judge_state(box, old['vects'], np.asarray(kwargs['origin'], float), 'set(origin)', eps)
+            elif 'vects' in kwargs:
+                ev = np.asarray(kwargs['vects'], float)
+                if ev.shape == (3, 3):
+                    judge_state(box, ev, expect_origin(kwargs.get('origin')), 'set(vects)', eps)
+        except (TypeError, ValueError):
+            return
+
+    monitor.observe(Box, 'position_relative_to_cartesian', post_r2c, pre_args('rel2cart'))
+    monitor.observe(Box, 'position_cartesian_to_relative', post_c2r, pre_args('cart2rel'))
+    monitor.observe(Box, 'inside', post_inside, pre_args('inside'))
+    monitor.observe(Shape, 'outside', post_outside, pre_args('outside'))
+    monitor.observe(Plane, 'below', post_below, pre_args('Plane.below'))
+    monitor.observe(Plane, 'above', post_above, pre_args('Plane.above'))
+    monitor.observe(Box, 'set_vectors', post_set_vectors, pre_args('set_vectors'))
+    monitor.observe(Box, 'set_lengths', post_set_lengths, pre_args('set_lengths'))
+    monitor.observe(Box, 'set_hi_los', post_set_hi_los, pre_args('set_hi_los'))
+    monitor.observe(Box, 'set_abc', post_set_abc, pre_args('set_abc'))
+    monitor.observe(Box, 'set', post_set, pre_set)
+
+    # -- property setters (vects, origin) and lazily built getters (reciprocal_vects, planes) ------------------------
+    def wrap_property(name, fget_post=None, fset_pre=None, fset_post=None):
+        prop = Box.__dict__[name]
+        real_get, real_set = prop.fget, prop.fset
+        label = f'Box.{name}'
+
+        def fget(self):
+            result = real_get(self)
+            if fget_post is not None:
+                monitor.calls[label + ':get'] = monitor.calls.get(label + ':get', 0) + 1
+                try:
+                    fget_post(self, result)
+                except Exception:
+                    monitor.calls[label + ':get:post_error'] = monitor.calls.get(label + ':get:post_error', 0) + 1
+            return result
+
+        def fset(self, value):
+            old = None
+            monitor.calls[label + ':set'] = monitor.calls.get(label + ':set', 0) + 1
+            try:
+                old = fset_pre(self, value)
+            except Exception:
+                monitor.calls[label + ':set:pre_error'] = monitor.calls.get(label + ':set:pre_error', 0) + 1
+            real_set(self, value)
+            try:
+                fset_post(self, value, old)
+            except Exception:
+                monitor.calls[label + ':set:post_error'] = monitor.calls.get(label + ':set:post_error', 0) + 1
+                import traceback
+                tb = monitor.calls.setdefault('_post_tracebacks', [])
+                if len(tb) < 3:
+                    tb.append(traceback.format_exc()[-1500:])
+        setattr(Box, name, property(fget if fget_post is not None else real_get,
+                                    fset if real_set is not None and fset_post is not None else real_set,
+                                    prop.fdel, prop.__doc__))
+        monitor._installed.append((Box, name, prop))
+
+    def check_derived(box, what):
+        """whatever is lazily kept on the object describes the *current* cell"""
+        v, o, L = state(box)
+        if not in_domain(v):
+            return
+        cached = getattr(box, '_Box__reciprocal_vects', None)
+        if cached is not None:
+            rec.close(1e-9, v @ np.asarray(cached).T, np.eye(3),
+                      'monitor: cached reciprocal vectors are dual to the current vectors', f'monitor:stale-reciprocal:{what}')
+
+    def pre_setter(box, value):
+        return dict(vects=box.vects, origin=box.origin, snap=snapshot(value) if is_arraylike(value) else None)
+
+    def post_vects_setter(box, value, old):
+        rec.count('monitor:vects-setter')
+        if old and old['snap'] is not None:
+            judge_args('vects=', [('value', value, old['snap'])])
+        try:
+            ev = np.asarray(value, float)
+        except (TypeError, ValueError):
+            return
+        if ev.shape == (3, 3) and old:
+            judge_state(box, ev, old['origin'], 'vects=', np.finfo(float).eps)
+        check_derived(box, 'vects=')
+
+    def post_origin_setter(box, value, old):
+        rec.count('monitor:origin-setter')
+        if old and old['snap'] is not None:
+            judge_args('origin=', [('value', value, old['snap'])])
+        try:
+            eo = np.asarray(value, float)
+        except (TypeError, ValueError):
+            return
+        if eo.shape == (3,) and old:
+            judge_state(box, old['vects'], eo, 'origin=', np.finfo(float).eps)
+        check_derived(box, 'origin=')
+
+    def post_recip_getter(box, result):
+        v = box.vects
+        if in_domain(v):
+            rec.count('monitor:reciprocal-getter')
+            rec.close(1e-9, v @ np.asarray(result, float).T, np.eye(3), 'monitor: reciprocal vectors returned are dual to the current vectors',
+                      'monitor:reciprocal:dual')
+
+    def post_planes_getter(box, result):
+        v, o, L = state(box)
+        if not in_domain(v):
+            return
+        rec.count('monitor:planes-getter')
+        try:
+            normals = [p.normal for p in result]
+            points = [p.point for p in result]
+        except Exception as e:
+            rec.fail('monitor: planes are six Plane objects', 'monitor:planes:type', exception=e)
+            return
+        cond = np.linalg.cond(v)
+        ok, why = F.match_planes(normals, points, v, o, tol_n=1e-10 * max(10.0, cond))
+        rec.check(ok, 'monitor: the planes returned are the six faces of the current cell (outward unit normals, points on the faces)',
+                  'monitor:planes:faces', why=why, vects=v, origin=o, normals=normals, points=points)
+
+    wrap_property('vects', fset_pre=pre_setter, fset_post=post_vects_setter)
+    wrap_property('origin', fset_pre=pre_setter, fset_post=post_origin_setter)
+    wrap_property('reciprocal_vects', fget_post=post_recip_getter)
+    wrap_property('planes', fget_post=post_planes_getter)
+
+
+# =====================================================================================================================
+# parameter sets
+# =====================================================================================================================
 def read_set(box, name):
     if name == 'vectors':
         return dict(avect=box.avect, bvect=box.bvect, cvect=box.cvect, origin=box.origin)
@@ -40,26 +505,51 @@ def truth_set(cell, name):
     """The same parameter sets computed by the oracle from the ground-truth cell."""
     v, o = cell['vects'], cell['origin']
     if name == 'vectors':
-        return dict(avect=v[0], bvect=v[1], cvect=v[2], origin=o)
-    a, b, c, al, be, ga = G.lengths_angles(v)
+        return dict(avect=v[0].copy(), bvect=v[1].copy(), cvect=v[2].copy(), origin=o.copy())
     if name == 'abc':
-        return dict(a=a, b=b, c=c, alpha=al, beta=be, gamma=ga, origin=o)
+        a, b, c, al, be, ga = G.lengths_angles(v)
+        return dict(a=a, b=b, c=c, alpha=al, beta=be, gamma=ga, origin=o.copy())
     assert cell['lammps']
     if name == 'lengths':
-        return dict(lx=v[0, 0], ly=v[1, 1], lz=v[2, 2], xy=v[1, 0], xz=v[2, 0], yz=v[2, 1], origin=o)
+        return dict(lx=v[0, 0], ly=v[1, 1], lz=v[2, 2], xy=v[1, 0], xz=v[2, 0], yz=v[2, 1], origin=o.copy())
     return dict(xlo=o[0], xhi=o[0] + v[0, 0], ylo=o[1], yhi=o[1] + v[1, 1], zlo=o[2], zhi=o[2] + v[2, 2],
                 xy=v[1, 0], xz=v[2, 0], yz=v[2, 1])
 
 
-def check_box_against(rec, box, vects, origin, lammps, L, what, **detail):
-    """box describes the cell (vects, origin): identical if LAMMPS-form, same
-    Gram matrix + right-handed otherwise."""
-    tolL = 1e-8 * L
+def abc_vects(t):
+    return G.vects_from_lammps(*G.lammps_from_abc(*[float(t[k]) for k in ('a', 'b', 'c', 'alpha', 'beta', 'gamma')]))
+
+
+def build(am, pset, vals):
+    return am.Box(**vals)
+
+
+def family_args(kind, p):
+    """Arguments of the crystal-family constructor for lattice parameters p (cells.family_params)."""
+    if kind == 'cubic':
+        return dict(a=p['a'])
+    if kind in ('tetragonal', 'hexagonal'):
+        return dict(a=p['a'], c=p['c'])
+    if kind == 'orthorhombic':
+        return dict(a=p['a'], b=p['b'], c=p['c'])
+    if kind == 'rhombohedral':
+        return dict(a=p['a'], alpha=p['alpha'])
+    if kind == 'monoclinic':
+        return dict(a=p['a'], b=p['b'], c=p['c'], beta=p['beta'])
+    return dict(p)
+
+
+# =====================================================================================================================
+# clauses
+# =====================================================================================================================
+def check_box_against(rec, box, vects, origin, lammps, L, what, tol_rel=1e-8, **detail):
+    """box describes the cell (vects, origin): identical if LAMMPS-form, same Gram matrix + right-handed otherwise."""
+    tolL = tol_rel * L
     bv, bo = box.vects, box.origin
     if lammps:
         rec.close(tolL, bv, vects, 'same vectors after ' + what, f'{what}:vects', **detail)
     else:
-        rec.close(1e-8 * L * L, bv @ bv.T, vects @ vects.T, 'same Gram matrix after ' + what, f'{what}:gram', **detail)
+        rec.close(tol_rel * L * L, bv @ bv.T, vects @ vects.T, 'same Gram matrix after ' + what, f'{what}:gram', **detail)
         rec.check(G.volume(bv) > 0, 'right-handed after ' + what, f'{what}:handed', **detail)
     rec.close(tolL + 1e-12 * np.abs(origin).max(), bo, origin, 'same origin after ' + what, f'{what}:origin', **detail)
 
@@ -72,6 +562,7 @@ def check_getters(rec, box, key='getters'):
     rec.close(1e-10 * L, [box.a, box.b, box.c], [a, b, c], 'a,b,c are the vector lengths', key + ':abc')
     rec.close(1e-6, [box.alpha, box.beta, box.gamma], [al, be, ga], 'alpha,beta,gamma are the vector angles', key + ':angles')
     rec.close(1e-9 * L ** 3, box.volume, abs(G.volume(v)), 'volume is the triple product', key + ':volume')
+    rec.close(0.0, [box.avect, box.bvect, box.cvect], v, 'avect,bvect,cvect are the rows of vects', key + ':abcvect')
     r = box.reciprocal_vects
     rec.close(1e-9, v @ np.asarray(r).T, np.eye(3), 'reciprocal vectors are dual to the cell vectors', key + ':dual')
     if G.is_lammps_form(v, 0.0):
@@ -82,158 +573,458 @@ def check_getters(rec, box, key='getters'):
         rec.close(1e-12 * (L + np.abs(o).max()), got, exp, 'lo/hi are origin and origin+length', key + ':hilo')
 
 
-def gen_points(rng, box_vects, box_origin, shape_class, L):
-    """Relative coordinates with interior, exterior, far, near-face and on-face entries."""
-    n = {'single': 1, 'N': 12, 'MN': 12}[shape_class]
-    rel = rng.uniform(-0.6, 1.6, (n, 3))
-    k = rng.integers(0, 6, n)
-    for j in range(n):
-        if k[j] == 0:
-            rel[j] = rng.uniform(0.05, 0.95, 3)                       # interior
-        elif k[j] == 1:
-            rel[j] = rng.uniform(-40, 40, 3)                          # far exterior
-        elif k[j] == 2:                                               # just inside / outside a face
-            ax = rng.integers(0, 3)
-            rel[j] = rng.uniform(0.1, 0.9, 3)
-            rel[j, ax] = rng.choice([0.0, 1.0]) + rng.choice([-1, 1]) * 10 ** rng.uniform(-6, -2)
-        elif k[j] == 3:                                               # exactly on a face / edge / corner
-            rel[j] = rng.uniform(0.1, 0.9, 3)
-            for ax in range(3):
-                if rng.random() < 0.5:
-                    rel[j, ax] = rng.choice([0.0, 1.0])
-    if shape_class == 'single':
-        return rel[0]
-    if shape_class == 'MN':
-        return rel.reshape(3, 4, 3)
-    return rel
+def check_planes(rec, box, key='planes'):
+    v, o = box.vects, box.origin
+    planes = None
+    try:
+        planes = box.planes
+        normals = [p.normal for p in planes]
+        points = [p.point for p in planes]
+    except Exception as e:
+        rec.fail('planes are six Plane objects', key + ':exception', exception=e)
+        return
+    ok, why = F.match_planes(normals, points, v, o, tol_n=1e-9)
+    rec.count('planes-judged')
+    rec.check(ok, 'planes are the six faces of the cell (outward unit normals, points on the faces)', key + ':faces',
+              why=why, vects=v, origin=o, normals=normals, points=points)
 
 
-def check_points(rec, box, rng, shape_class, as_list):
+def check_exact_faces(rec, box, key='faces-exact'):
+    """Axis-aligned cells only: the inclusive flag decides points whose face coordinate is exactly the face's."""
+    v, o = box.vects, box.origin
+    if not F.is_axis_aligned(v):
+        return False
+    pts, strict = F.exact_face_points(v, o)
+    if not strict:
+        rec.count('faces-exact:skipped-degenerate-rounding')
+        return False
+    rec.count('faces-exact:cells')
+    T, Fa = np.ones(6, bool), np.zeros(6, bool)
+    calls = [('inside(p, inclusive=True)', lambda p: box.inside(p, inclusive=True), T),
+             ('inside(p, inclusive=False)', lambda p: box.inside(p, inclusive=False), Fa),
+             ('inside(p)', lambda p: box.inside(p), T),
+             ('inside(p, True) positional', lambda p: box.inside(p, True), T),
+             ('outside(p, inclusive=True)', lambda p: box.outside(p, inclusive=True), T),
+             ('outside(p, inclusive=False)', lambda p: box.outside(p, inclusive=False), Fa),
+             ('outside(p)', lambda p: box.outside(p), Fa),
+             ('outside(p, True) positional', lambda p: box.outside(p, True), T)]
+    for name, fn, exp in calls:
+        for form, arg in (('array', pts.copy()), ('list', pts.tolist()))[:2 if name.endswith('=False)') else 1]:
+            try:
+                got = np.asarray(fn(arg))
+            except Exception as e:
+                rec.fail('inside/outside accept points on the faces', f'{key}:exception', call=name, exception=e)
+                continue
+            rec.count('faces-exact:points', 6)
+            rec.check(got.shape == (6,) and np.array_equal(got, exp),
+                      'points exactly on a face of an axis-aligned cell are inside iff inclusive (outside iff inclusive)',
+                      f'{key}:{name.split("(")[0]}:{"T" if exp[0] else "F"}', call=name, form=form, got=got, expected=exp,
+                      vects=v, origin=o, points=pts)
+        # one point at a time, too
+        if not name.startswith('inside(p, inclusive='):
+            continue
+        try:
+            got1 = np.array([bool(fn(p.copy())) for p in pts])
+            rec.check(np.array_equal(got1, exp), 'a single point exactly on a face is inside iff inclusive (outside iff inclusive)',
+                      f'{key}:single:{name.split("(")[0]}:{"T" if exp[0] else "F"}', call=name, got=got1, expected=exp, vects=v, origin=o)
+        except Exception as e:
+            rec.fail('inside/outside accept a single point on a face', f'{key}:exception', call=name, exception=e)
+    return True
+
+
+def gen_cart_inputs(rng, v, o, shape_class, form):
+    """(rel given to r2c in the form, its float64 value, cart given to c2r/inside in the form, its float64 value)."""
+    rel = C.gen_rel_points(rng, shape_class)
+    if form in C.INT_FORMS:
+        rel_v = np.rint(rel * 2.0)                      # lattice-translation like integer triples
+        cart_v = np.rint(G.cart(rel, v, o))
+        if not np.all(np.abs(cart_v) < 2 ** 30):        # does not fit int32: keep to small numbers around zero
+            cart_v = np.rint(rel * 3.0)
+    else:
+        rel_v, cart_v = rel, G.cart(rel, v, o)
+    rel_in, cart_in = C.as_form(rel_v, form), C.as_form(cart_v, form)
+    return rel_in, C.value_of(rel_in), cart_in, C.value_of(cart_in)
+
+
+def check_points(rec, box, rng, shape_class, form, twin=None, results=None):
+    """Both conversions, their mutual inversion, inside/outside with both inclusive settings, on one batch of points
+    handed over in the given leading shape and argument form."""
     v, o = box.vects, box.origin
     L = np.linalg.norm(v, axis=1).max()
     osc = 1.0 + np.abs(o).max() / L
-    rel = gen_points(rng, v, o, shape_class, L)
-    cart_exp = G.cart(rel, v, o)
-    arg = rel.tolist() if as_list else rel
-    tolc = 1e-9 * (L * (1 + np.abs(rel).max()) + np.abs(o).max())
-    tolr = 1e-9 * osc * (1 + np.abs(rel).max())
-    key = f'points:{shape_class}:{"list" if as_list else "array"}'
+    if shape_class == 'empty' and form in ('list', 'tuple', 'intlist', 'inttuple'):
+        shape_class = 'one'                       # an empty list carries no (0,3) shape: not an array of points
+    rel_in, rel_t, cart_in, cart_t = gen_cart_inputs(rng, v, o, shape_class, form)
+    keep = (snapshot(rel_in), snapshot(cart_in))
+    key = f'points:{shape_class}:{form}'
+    rec.count('points-class:' + key)
+    rec.count('points-form:' + form)
+    rec.count('points-shape:' + shape_class)
+    rmax = max(np.abs(rel_t).max(initial=0), np.abs(G.rel(cart_t, v, o)).max(initial=0)) if cart_t.size else 0.0
+    tolc = 1e-9 * (L * (1 + rmax) + np.abs(o).max())
+    tolr = 1e-9 * osc * (1 + rmax)
+    out = {}
+    # relative -> Cartesian -> relative
     cart = None
     try:
-        cart = box.position_relative_to_cartesian(arg)
+        cart = box.position_relative_to_cartesian(rel_in)
     except Exception as e:
-        rec.fail('relative->Cartesian conversion accepts array-likes of any leading shape', 'rel2cart:exception:' + key, exception=e, rel=rel)
+        rec.fail('relative->Cartesian conversion accepts array-likes of any leading shape', 'rel2cart:exception:' + key, exception=e, rel=rel_t)
     if cart is not None:
-        rec.close(tolc, cart, cart_exp, 'relative->Cartesian equals rel.vects+origin', 'rel2cart:' + key, rel=rel, vects=v, origin=o)
-    carg = cart_exp.tolist() if as_list else cart_exp
-    back = None
-    try:
-        back = box.position_cartesian_to_relative(carg)
-    except Exception as e:
-        rec.fail('Cartesian->relative conversion accepts array-likes of any leading shape', 'cart2rel:exception:' + key, exception=e, cart=cart_exp)
-    if back is not None:
-        rec.close(tolr, back, rel, 'Cartesian->relative inverts relative->Cartesian', 'cart2rel:' + key, rel=rel, vects=v, origin=o)
-        rec.close(tolr, back, G.rel(cart_exp, v, o), 'Cartesian->relative equals the linear solve', 'cart2rel:solve:' + key)
-    if cart is not None:
+        out['r2c'] = cart
+        rec.check(isinstance(cart, np.ndarray) and cart.dtype == np.float64, 'relative->Cartesian returns a float64 array', 'rel2cart:dtype:' + key)
+        rec.close(tolc, cart, G.cart(rel_t, v, o), 'relative->Cartesian equals rel.vects+origin', 'rel2cart:' + key, rel=rel_t, vects=v, origin=o)
         try:
-            rt = box.position_relative_to_cartesian(box.position_cartesian_to_relative(cart))
-            rec.close(2 * tolc, rt, cart, 'cart->rel->cart is the identity', 'roundtrip:cart:' + key)
-        except Exception:
-            pass
+            back = box.position_cartesian_to_relative(cart)
+            out['r2c-back'] = back
+            rec.close(tolr, back, rel_t, 'Cartesian->relative inverts relative->Cartesian', 'cart2rel:inverse:' + key, rel=rel_t, vects=v, origin=o)
+        except Exception as e:
+            rec.fail('Cartesian->relative accepts the output of relative->Cartesian', 'cart2rel:exception:' + key, exception=e)
+    # Cartesian -> relative -> Cartesian
+    relb = None
+    try:
+        relb = box.position_cartesian_to_relative(cart_in)
+    except Exception as e:
+        rec.fail('Cartesian->relative conversion accepts array-likes of any leading shape', 'cart2rel:exception:' + key, exception=e, cart=cart_t)
+    if relb is not None:
+        out['c2r'] = relb
+        rec.check(isinstance(relb, np.ndarray) and relb.dtype == np.float64, 'Cartesian->relative returns a float64 array', 'cart2rel:dtype:' + key)
+        rec.close(tolr, relb, G.rel(cart_t, v, o), 'Cartesian->relative equals the linear solve', 'cart2rel:solve:' + key, cart=cart_t, vects=v, origin=o)
+        try:
+            fwd = box.position_relative_to_cartesian(relb)
+            rec.close(2 * tolc, fwd, cart_t, 'relative->Cartesian inverts Cartesian->relative', 'rel2cart:inverse:' + key, cart=cart_t, vects=v, origin=o)
+        except Exception as e:
+            rec.fail('relative->Cartesian accepts the output of Cartesian->relative', 'rel2cart:exception:' + key, exception=e)
     # inside / outside
     bound = 1e-8 * osc
-    rel2 = rel.reshape(-1, 3)
-    dist = np.minimum(np.abs(rel2), np.abs(rel2 - 1)).min(axis=1)
-    exempt = dist < bound
-    exp_in = np.all((rel2 >= 0) & (rel2 <= 1), axis=1)
-    rec.count('points', len(rel2))
+    relo, exp_in, exempt = F.classify(cart_t, v, o, bound)
+    rec.count('points', len(relo))
     rec.count('points_exempt_on_face', int(exempt.sum()))
     rec.count('points_inside', int((exp_in & ~exempt).sum()))
     rec.count('points_outside', int((~exp_in & ~exempt).sum()))
+    lead = cart_t.shape[:-1]
     for inclusive in (True, False):
+        tag = 'incl' if inclusive else 'excl'
+        for what in ('inside', 'outside'):
+            try:
+                res = getattr(box, what)(cart_in, inclusive=inclusive)
+            except Exception as e:
+                rec.fail('inside/outside accept array-likes of points of any leading shape', f'{what}:exception:{key}', exception=e)
+                continue
+            got = np.asarray(res)
+            out[f'{what}:{tag}'] = got
+            if not rec.check(got.shape == lead and got.dtype == bool, f'{what} returns one bool per point (leading shape of the input)',
+                             f'{what}:shape:{shape_class}', got_shape=got.shape, dtype=str(got.dtype), lead=lead):
+                continue
+            got = got.reshape(-1)
+            exp = exp_in if what == 'inside' else ~exp_in
+            ok = (got == exp) | exempt
+            rec.count(f'{what}:{tag}:judged', int((~exempt).sum()))
+            rec.check(ok.all(), f'{what}(p) decides "all relative coordinates in [0,1]" (points beyond the bound from every face)',
+                      f'{what}:{tag}', form=form, shape=shape_class, rel=relo[~ok][:3], got=got[~ok][:3], vects=v, origin=o)
+        if f'inside:{tag}' in out and f'outside:{"excl" if inclusive else "incl"}' in out:
+            rec.check(np.array_equal(out[f'outside:{"excl" if inclusive else "incl"}'], ~out[f'inside:{tag}']),
+                      'outside(p, inclusive) is the complement of inside(p, not inclusive) for every point', 'outside:complement',
+                      form=form, shape=shape_class)
+    # default arguments: inside(p) is inclusive, outside(p) is exclusive
+    try:
+        d_in, d_out = np.asarray(box.inside(cart_in)), np.asarray(box.outside(cart_in))
+        if 'inside:incl' in out and 'outside:excl' in out:
+            rec.check(np.array_equal(d_in, out['inside:incl']) and np.array_equal(d_out, out['outside:excl']),
+                      'inside(p) defaults to inclusive=True and outside(p) to inclusive=False', 'inside:defaults')
+    except Exception as e:
+        rec.fail('inside/outside accept array-likes of points of any leading shape', f'inside:exception:{key}', exception=e)
+    # the caller's objects are as they were (the monitors judge every call; this is the end-to-end statement)
+    rec.check(same(keep[0], rel_in) and same(keep[1], cart_in), "the caller's point arrays are unchanged by conversions and inside/outside",
+              f'args-unchanged:points:{form}', shape=shape_class)
+    # a freshly built Box of the same cell answers the same
+    if twin is not None:
+        rec.count('twin:points-compared')
         try:
-            got = np.asarray(box.inside(carg, inclusive=inclusive)).reshape(-1)
-            gout = np.asarray(box.outside(carg, inclusive=not inclusive)).reshape(-1)
+            t = {'r2c': twin.position_relative_to_cartesian(rel_in), 'c2r': twin.position_cartesian_to_relative(cart_in)}
+            for inclusive in (True, False):
+                tag = 'incl' if inclusive else 'excl'
+                t[f'inside:{tag}'] = np.asarray(twin.inside(cart_in, inclusive=inclusive))
+                t[f'outside:{tag}'] = np.asarray(twin.outside(cart_in, inclusive=inclusive))
         except Exception as e:
-            rec.fail('inside/outside accept arrays of points', 'inside:exception:' + key, exception=e)
-            continue
-        ok = (got == exp_in) | exempt
-        rec.check(ok.all(), 'inside(p) iff all relative coordinates in [0,1] (points beyond the bound from every face)',
-                  f'inside:{"incl" if inclusive else "excl"}', rel=rel2[~ok][:3], got=got[~ok][:3], vects=v, origin=o)
-        rec.check((gout == ~got).all(), 'outside(p, inclusive) is the complement of inside(p, not inclusive)', 'outside:complement')
-    # exactly-on-face points (constructed in relative coordinates) under the cell's own origin 0:
-    return rel
+            rec.fail('a freshly built Box of the same cell accepts the same calls', 'twin:exception', exception=e)
+            t = {}
+        for k, tv in t.items():
+            if k not in out:
+                continue
+            if tv.dtype == bool:
+                if tv.shape == out[k].shape:
+                    ok = (tv.reshape(-1) == out[k].reshape(-1)) | exempt
+                    rec.check(ok.all(), 'a Box with a history answers inside/outside like a freshly built Box of the same cell',
+                              f'twin:{k}', rel=relo[~ok][:3], vects=v, origin=o)
+            else:
+                rec.close(1e-3 * (tolc if k == 'r2c' else tolr), out[k], tv,
+                          'a Box with a history converts positions like a freshly built Box of the same cell', f'twin:{k}')
+    if results is not None:
+        results.extend(x for x in out.values() if isinstance(x, np.ndarray) and x.dtype != bool)
+    return out
 
 
-def build(am, pset, vals):
-    if pset == 'vectors':
-        return am.Box(avect=vals['avect'], bvect=vals['bvect'], cvect=vals['cvect'], origin=vals['origin'])
-    return am.Box(**vals)
-
-
-def install_monitors(rec, am):
-    """Postcondition monitors on the real Box methods (fire on every call,
-    including the ones atomman makes internally)."""
-    Box = am.Box
-
-    def post_r2c(args, kwargs, result, exc, old):
-        if exc is not None:
-            return
-        box = args[0]
-        relpos = np.asarray(args[1] if len(args) > 1 else kwargs['relpos'], float)
-        v, o = box.vects, box.origin
-        L = np.linalg.norm(v, axis=1).max()
-        tol = 1e-9 * (L * (1 + np.abs(relpos).max(initial=0)) + np.abs(o).max())
-        rec.close(tol, result, G.cart(relpos, v, o), 'monitor: relative->Cartesian postcondition', 'monitor:rel2cart')
-
-    def post_c2r(args, kwargs, result, exc, old):
-        if exc is not None:
-            return
-        box = args[0]
-        cartpos = np.asarray(args[1] if len(args) > 1 else kwargs['cartpos'], float)
-        v, o = box.vects, box.origin
-        L = np.linalg.norm(v, axis=1).max()
-        exp = G.rel(cartpos, v, o)
-        tol = 1e-9 * (1 + np.abs(o).max() / L) * (1 + np.abs(exp).max(initial=0))
-        rec.close(tol, result, exp, 'monitor: Cartesian->relative postcondition', 'monitor:cart2rel')
-
-    def post_setter(args, kwargs, result, exc, old):
-        if exc is not None:
-            return
-        box = args[0]
-        cached = box._Box__reciprocal_vects
-        if cached is not None:
-            rec.close(1e-9, box.vects @ np.asarray(cached).T, np.eye(3),
-                      'monitor: cached reciprocal vectors are dual to the current vectors', 'monitor:stale-reciprocal')
-        rec.count('monitor:vects-setter')
-
-    monitor.observe(Box, 'position_relative_to_cartesian', post_r2c)
-    monitor.observe(Box, 'position_cartesian_to_relative', post_c2r)
-    # the vects property setter
-    prop = Box.__dict__['vects']
-    real_set = prop.fset
-
-    def fset(self, value):
-        real_set(self, value)
+def check_twin_getters(rec, box, twin):
+    """Every scalar/array getter of a Box with a history equals that of a freshly built Box of the same cell."""
+    v = box.vects
+    L = np.linalg.norm(v, axis=1).max()
+    o = np.abs(box.origin).max()
+    names = ['a', 'b', 'c', 'alpha', 'beta', 'gamma', 'volume']
+    scale = [L, L, L, 1e3, 1e3, 1e3, L ** 3]
+    if G.is_lammps_form(v, 0.0):
+        names += ['lx', 'ly', 'lz', 'xy', 'xz', 'yz', 'xlo', 'xhi', 'ylo', 'yhi', 'zlo', 'zhi']
+        scale += [L] * 6 + [L + o] * 6
+    rec.count('twin:getters-compared')
+    for n, s in zip(names, scale):
         try:
-            post_setter((self,), {}, None, None, None)
-        except Exception:
-            pass
-    Box.vects = property(prop.fget, fset, prop.fdel, prop.__doc__)
+            rec.close(1e-13 * s, getattr(box, n), getattr(twin, n), 'a Box with a history reports the parameters of a freshly built Box of the same cell',
+                      'twin:getter:' + n)
+        except Exception as e:
+            rec.fail('getters of a Box with a history do not raise', 'twin:getter:exception', getter=n, exception=e)
+    rec.close(1e-12 / L, box.reciprocal_vects, twin.reciprocal_vects, 'a Box with a history has the reciprocal vectors of a freshly built Box of the same cell',
+              'twin:reciprocal')
+    try:
+        pb, pt = box.planes, twin.planes
+        rec.close(1e-12, [p.normal for p in pb], [p.normal for p in pt], 'a Box with a history has the planes of a freshly built Box of the same cell',
+                  'twin:planes:normals')
+        rec.close(1e-13 * (L + o), [p.point for p in pb], [p.point for p in pt], 'a Box with a history has the planes of a freshly built Box of the same cell',
+                  'twin:planes:points')
+    except Exception as e:
+        rec.fail('planes of a Box with a history do not raise', 'twin:planes:exception', exception=e)
+    rec.check(box.is_lammps_norm() == twin.is_lammps_norm(), 'is_lammps_norm agrees with a freshly built Box of the same cell', 'twin:is_lammps_norm')
 
 
+# =====================================================================================================================
+# histories on ONE Box object
+# =====================================================================================================================
+CHANGES = ['vects=', 'origin=', 'set(origin)', 'set()', 'set(vects,origin)', 'set(vects)',
+           'set_vectors', 'set_vectors-noorigin', 'set_vectors-positional', 'set(avect..)',
+           'set_abc', 'set_abc-noorigin', 'set_abc-defaults', 'set(a..)', 'origin=:small',
+           'set_lengths', 'set_lengths-noorigin', 'set_lengths-defaults', 'set_lengths-positional', 'set(lx..)',
+           'set_hi_los', 'set_hi_los-defaults', 'set_hi_los-positional', 'set(xlo..)', 'set(origin):small', 'vects=:partial']
+ORIGIN_ONLY = ('origin=', 'set(origin)', 'origin=:small', 'set(origin):small')
+NEEDS_ORTHO = ('set_abc-defaults', 'set_lengths-defaults', 'set_hi_los-defaults')
+ROTATED_OK = ('vects=', 'set(vects,origin)', 'set(vects)', 'set_vectors', 'set_vectors-noorigin', 'set_vectors-positional',
+              'set(avect..)', 'set_abc', 'set_abc-noorigin', 'set(a..)')
+SCALAR_OPS = tuple(c for c in CHANGES if c.startswith(('set_abc', 'set(a..)', 'set_lengths', 'set(lx..)', 'set_hi_los', 'set(xlo..)')))
+READS = ['state', 'getters', 'planes', 'points', 'points2', 'twin-getters', 'exact-faces']
+
+
+def history_cell(rng, op, aform, sform, origin_class, scale):
+    need_int = aform in C.INT_FORMS or (op in SCALAR_OPS and sform == 'int')
+    if op == 'vects=:partial':
+        return dict(kind='current', vects=None, origin=None, L=None)
+    if need_int:
+        cell = C.gen_cell(rng, 'integer', {'huge': 'far'}.get(origin_class, origin_class))
+        if op in NEEDS_ORTHO or (sform == 'int' and op in ('set_abc', 'set_abc-noorigin', 'set(a..)')):
+            cell['vects'] = np.diag(np.diag(cell['vects']))
+            cell['L'] = np.linalg.norm(cell['vects'], axis=1).max()
+        return cell
+    if op in NEEDS_ORTHO:
+        kinds = C.ORTHO
+    elif op in ROTATED_OK:
+        kinds = C.KINDS
+    else:
+        kinds = C.KINDS[:-1]
+    return C.gen_cell(rng, kinds[int(rng.integers(0, len(kinds)))], origin_class, scale)
+
+
+def cast_scalars(t, sform):
+    return {k: (C.scalar_as(x, sform) if np.ndim(x) == 0 else x) for k, x in t.items()}
+
+
+def apply_change(box, op, cell, cur_v, cur_o, aform, sform, rng):
+    """Performs the change on ``box``; returns the expected state (from the values actually handed over) and the
+    harness-owned argument objects."""
+    v, o, L = cell['vects'], cell['origin'], cell['L']
+    A = lambda x: C.as_form(x, aform)
+    res = dict(exp_v=None, exp_o=None, args=[], tol_rel=1e-8, tol_abs=0.0, exact=True)
+    eps32 = float(np.finfo(np.float32).eps)
+    if op in ORIGIN_ONLY:
+        curL = np.linalg.norm(cur_v, axis=1).max()
+        if op.endswith(':small'):
+            new_o = cur_o + rng.choice([-1.0, 1.0], 3) * rng.uniform(0.05, 0.6, 3) * curL
+        else:
+            new_o = o / L * curL                                   # the step's origin class, on the scale of the current cell
+        if aform in C.INT_FORMS:
+            new_o = np.rint(new_o)
+        arg = A(new_o)
+        res.update(exp_v=cur_v, exp_o=C.value_of(arg), args=[arg])
+        if op.startswith('origin='):
+            box.origin = arg
+        else:
+            box.set(origin=arg)
+        return res
+    if op == 'vects=:partial':                                     # only the c vector changes (a, b, origin stay as they are)
+        nv = cur_v.copy()
+        nv[2] = rng.uniform(1.2, 1.6) * cur_v[2] + rng.uniform(-0.3, 0.3) * cur_v[0]
+        arg = C.as_form(nv, aform if aform in C.FLOAT_FORMS else 'f64')
+        box.vects = arg
+        res.update(exp_v=C.value_of(arg), exp_o=cur_o, args=[arg])
+        return res
+    if op == 'set()':
+        box.set()
+        res.update(exp_v=np.eye(3), exp_o=np.zeros(3))
+        return res
+    if op in ('vects=', 'set(vects,origin)', 'set(vects)'):
+        va, oa = A(v), A(o)
+        if op == 'vects=':
+            box.vects = va
+            res.update(exp_v=C.value_of(va), exp_o=cur_o, args=[va])
+        elif op == 'set(vects)':
+            box.set(vects=va)
+            res.update(exp_v=C.value_of(va), exp_o=np.zeros(3), args=[va])
+        else:
+            box.set(vects=va, origin=oa)
+            res.update(exp_v=C.value_of(va), exp_o=C.value_of(oa), args=[va, oa])
+        return res
+    if op in ('set_vectors', 'set_vectors-noorigin', 'set_vectors-positional', 'set(avect..)'):
+        a_, b_, c_, oa = A(v[0]), A(v[1]), A(v[2]), A(o)
+        ev = np.array([C.value_of(a_), C.value_of(b_), C.value_of(c_)])
+        res.update(exp_v=ev, exp_o=C.value_of(oa), args=[a_, b_, c_, oa])
+        if op == 'set_vectors':
+            box.set_vectors(avect=a_, bvect=b_, cvect=c_, origin=oa)
+        elif op == 'set_vectors-noorigin':
+            box.set_vectors(avect=a_, bvect=b_, cvect=c_)
+            res.update(exp_o=np.zeros(3), args=[a_, b_, c_])
+        elif op == 'set_vectors-positional':
+            box.set_vectors(a_, b_, c_, oa)
+        else:
+            box.set(avect=a_, bvect=b_, cvect=c_, origin=oa)
+        return res
+    oa = A(o)
+    if op in ('set_abc', 'set_abc-noorigin', 'set_abc-defaults', 'set(a..)'):
+        t = truth_set(cell, 'abc')
+        if op == 'set_abc-defaults' or sform == 'int':
+            t.update(alpha=90.0, beta=90.0, gamma=90.0)
+        t = cast_scalars(t, sform)
+        t['origin'] = oa
+        res.update(exp_v=abc_vects(t), exp_o=C.value_of(oa), args=[oa], exact=False)
+        if sform == 'np.float32':
+            res['tol_rel'] = 1e-5
+        if op == 'set_abc':
+            box.set_abc(**t)
+        elif op == 'set(a..)':
+            box.set(**t)
+        elif op == 'set_abc-noorigin':
+            t.pop('origin')
+            box.set_abc(**t)
+            res.update(exp_o=np.zeros(3), args=[])
+        else:
+            box.set_abc(a=t['a'], b=t['b'], c=t['c'], origin=oa)
+        return res
+    if op in ('set_lengths', 'set_lengths-noorigin', 'set_lengths-defaults', 'set_lengths-positional', 'set(lx..)'):
+        t = cast_scalars(truth_set(cell, 'lengths'), sform)
+        t['origin'] = oa
+        ev = G.vects_from_lammps(*[float(t[k]) for k in ('lx', 'ly', 'lz', 'xy', 'xz', 'yz')])
+        res.update(exp_v=ev, exp_o=C.value_of(oa), args=[oa])
+        if op == 'set_lengths':
+            box.set_lengths(**t)
+        elif op == 'set(lx..)':
+            box.set(**t)
+        elif op == 'set_lengths-noorigin':
+            t.pop('origin')
+            box.set_lengths(**t)
+            res.update(exp_o=np.zeros(3), args=[])
+        elif op == 'set_lengths-positional':
+            box.set_lengths(t['lx'], t['ly'], t['lz'], t['xy'], t['xz'], t['yz'], oa)
+        else:
+            box.set_lengths(lx=t['lx'], ly=t['ly'], lz=t['lz'], origin=oa)
+        return res
+    # lo / hi
+    t = cast_scalars(truth_set(cell, 'hilo'), sform)
+    f = {k: float(x) for k, x in t.items()}
+    ev = G.vects_from_lammps(f['xhi'] - f['xlo'], f['yhi'] - f['ylo'], f['zhi'] - f['zlo'], f['xy'], f['xz'], f['yz'])
+    mag = max(abs(x) for x in (f['xlo'], f['xhi'], f['ylo'], f['yhi'], f['zlo'], f['zhi']))
+    res.update(exp_v=ev, exp_o=np.array([f['xlo'], f['ylo'], f['zlo']]), args=[],
+               tol_abs=4 * (eps32 if sform == 'np.float32' else np.finfo(float).eps) * mag)
+    if op == 'set_hi_los':
+        box.set_hi_los(**t)
+    elif op == 'set(xlo..)':
+        box.set(**t)
+    elif op == 'set_hi_los-positional':
+        box.set_hi_los(t['xlo'], t['xhi'], t['ylo'], t['yhi'], t['zlo'], t['zhi'], t['xy'], t['xz'], t['yz'])
+    else:
+        box.set_hi_los(xlo=t['xlo'], xhi=t['xhi'], ylo=t['ylo'], yhi=t['yhi'], zlo=t['zlo'], zhi=t['zhi'])
+    return res
+
+
+def judge_state(rec, box, exp_v, exp_o, tol_rel, tol_abs, what, **detail):
+    """The state reported by the object is the expected cell (vectors, origin, and the three single-vector getters)."""
+    L = np.linalg.norm(exp_v, axis=1).max()
+    tol = tol_rel * L + tol_abs
+    bv, bo = box.vects, box.origin
+    rec.close(tol, bv, exp_v, 'vectors of the object are those of the last change', f'{what}:vects', **detail)
+    rec.close(tol_abs + 1e-12 * max(np.abs(exp_o).max(), 0.0) + (tol_rel * L if tol_abs else 0.0), bo, exp_o,
+              'origin of the object is that of the last change (or the documented default)', f'{what}:origin', **detail)
+    return bv, bo
+
+
+def full_read(rec, am, box, rng, exp, i, step, which=None, twin_checks=True):
+    """Every kind of read on the object in random order, each judged; returns the arrays handed out by the object."""
+    handed = []
+    order = list(READS if which is None else which)
+    rng.shuffle(order)
+    twin = None
+    if twin_checks:
+        with _guard(rec, 'a fresh Box can be built from the state of a Box with a history', 'twin:build'):
+            twin = am.Box(vects=exp['bv'], origin=exp['bo'])
+    shape1 = C.SHAPES[(i + step) % len(C.SHAPES)]
+    form1 = C.ARRAY_FORMS[(i // 2 + step) % len(C.ARRAY_FORMS)]
+    for r in order:
+        rec.count('history:read:' + r)
+        if r == 'state':
+            bv, bo = judge_state(rec, box, exp['exp_v'], exp['exp_o'], exp['tol_rel'], exp['tol_abs'], 'history:state', op=exp['op'])
+            handed += [bv, bo, box.avect, box.bvect, box.cvect]
+        elif r == 'getters':
+            check_getters(rec, box, 'history:getters')
+        elif r == 'planes':
+            check_planes(rec, box, 'history:planes')
+        elif r == 'points':
+            check_points(rec, box, rng, 'N', 'f64', twin=twin, results=handed)
+        elif r == 'points2':
+            check_points(rec, box, rng, shape1, form1, twin=twin, results=handed)
+        elif r == 'twin-getters' and twin is not None:
+            check_twin_getters(rec, box, twin)
+        elif r == 'exact-faces':
+            if check_exact_faces(rec, box, 'history:faces-exact'):
+                rec.count('history:exact-faces')
+    return handed
+
+
+class _guard:
+    def __init__(self, rec, clause, key):
+        self.rec, self.clause, self.key = rec, clause, key
+
+    def __enter__(self):
+        return self
+
+    def __exit__(self, et, ev, tb):
+        if et is None or issubclass(et, (KeyboardInterrupt, SystemExit, MemoryError)):
+            return False
+        self.rec.fail(self.clause + ':exception', self.key, exception=f'{et.__name__}: {ev}')
+        return True
+
+
+# =====================================================================================================================
+# workload
+# =====================================================================================================================
 def run(ctx):
     import atomman as am
     rec = ctx.rec
     install_monitors(rec, am)
 
+    # ---- boxes: parameter-set round trips, getters, planes, points -------------------------------------------------
     n_boxes = ctx.pick(432, 4320)
     for i in ctx.cases('boxes', n_boxes):
         rng = ctx.rng
-        kind, oc, scale = cells.stratified(i)
-        cell = cells.gen_cell(rng, kind, oc, scale)
+        kind, oc, scale = C.stratified(i)
+        cell = C.gen_cell(rng, kind, oc, scale)
         v, o, L = cell['vects'], cell['origin'], cell['L']
         rec.case((kind, oc, scale), nontrivial=True, fp=fingerprint(v, o))
+        rec.count(f'cells:scale:{scale:g}')
+        rec.count(f'cells:origin:{oc}')
         if i < 27:
             rec.sample(dict(kind=kind, vects=v, origin=o))
         sets = SETS if cell['lammps'] else ('vectors', 'abc')
@@ -248,6 +1039,7 @@ def run(ctx):
             exact = cell['lammps'] or A != 'abc'      # abc input of a rotated cell gives its LAMMPS orientation
             check_box_against(rec, boxA, v, o, exact, L, f'build({A})', kind=kind)
             check_getters(rec, boxA, f'getters:{A}')
+            check_planes(rec, boxA, f'planes:{A}')
             setsB = SETS if G.is_lammps_form(boxA.vects, 0.0) else ('vectors', 'abc')
             for B in setsB:
                 boxB = None
@@ -259,64 +1051,210 @@ def run(ctx):
                 rec.count('pairs')
                 same_orient = G.is_lammps_form(boxA.vects, 0.0) or B == 'vectors'
                 check_box_against(rec, boxB, boxA.vects, boxA.origin, same_orient, L, f'{A}->{B}', kind=kind)
-        # points on the vectors-built box
+        # the crystal-family constructors (lengths and angles with the family's fixed angles), then the origin alone
+        if kind in FAMILY_CTORS and cell['params'] is not None:
+            boxF = None
+            with ctx.guard(f'Box.{kind}(...) builds the family cell', f'build:family:{kind}'):
+                ctor = getattr(am.Box, 'trigonal' if kind == 'rhombohedral' else kind)
+                boxF = ctor(**family_args(kind, cell['params']))
+                boxF.origin = o.copy()
+            if boxF is not None:
+                rec.count('family-constructors')
+                check_box_against(rec, boxF, v, o, True, L, f'build(family:{kind})')
+                check_getters(rec, boxF, 'getters:family')
+        # points on the vectors-built box: leading shape and argument form are functions of the case index
         box = build(am, 'vectors', truth_set(cell, 'vectors'))
-        for shape_class in ('single', 'N', 'MN'):
-            check_points(rec, box, rng, shape_class, as_list=bool((i + len(shape_class)) % 2))
+        for j in range(3):
+            shape_class = C.SHAPES[(2 * i + j) % len(C.SHAPES)] if j else ('N', 'MN', 'single')[i % 3]
+            form = C.ARRAY_FORMS[(i // 3 + 4 * j) % len(C.ARRAY_FORMS)]
+            check_points(rec, box, rng, shape_class, form)
+        if check_exact_faces(rec, box):
+            rec.count(f'faces-exact:origin:{oc}')
 
-    # histories: successive set_* calls on ONE object interleaved with cached reads
+    # ---- forms: one and the same cell handed over in every array form / scalar form --------------------------------
+    n_forms = ctx.pick(132, 1320)
+    for i in ctx.cases('forms', n_forms):
+        rng = ctx.rng
+        aform = C.ARRAY_FORMS[i % len(C.ARRAY_FORMS)]
+        sform = C.SCALAR_FORMS[(i // len(C.ARRAY_FORMS)) % len(C.SCALAR_FORMS)]
+        oc = C.ORIGINS[(i // 2) % 3]                                    # zero / near / far
+        need_int = aform in C.INT_FORMS or sform == 'int'
+        kind = 'integer' if need_int else C.KINDS[(i // 3) % (len(C.KINDS) - 1)]
+        cell = C.gen_cell(rng, kind, oc, C.SCALES[(i // 5) % len(C.SCALES)])
+        v, o, L = cell['vects'], cell['origin'], cell['L']
+        rec.case(('forms', aform, sform, kind, oc), nontrivial=True, fp=fingerprint(v, o, aform, sform))
+        rec.count('forms:array:' + aform)
+        rec.count('forms:scalar:' + sform)
+        A = lambda x: C.as_form(x, aform)
+        # arrays: vects=, avect/bvect/cvect, origin
+        va, oa = A(v), A(o)
+        ev, eo = C.value_of(va), C.value_of(oa)
+        keep = [snapshot(va), snapshot(oa)]
+        with ctx.guard('Box(vects=, origin=) accepts the array form', f'forms:build:vects:{aform}'):
+            b1 = am.Box(vects=va, origin=oa)
+            check_box_against(rec, b1, ev, eo, True, L, 'forms:Box(vects)', form=aform)
+            rec.check(same(keep[0], va) and same(keep[1], oa), "the caller's vects/origin objects are unchanged by Box(vects=, origin=)",
+                      f'args-unchanged:Box(vects):{aform}')
+            scribble(va), scribble(oa)
+            check_box_against(rec, b1, ev, eo, True, L, 'forms:Box(vects):after-caller-reuses-its-arrays', form=aform)
+        abc3 = [A(v[0]), A(v[1]), A(v[2])]
+        oa = A(o)
+        keep = [snapshot(x) for x in abc3 + [oa]]
+        with ctx.guard('Box(avect=, bvect=, cvect=, origin=) accepts the array form', f'forms:build:vectors:{aform}'):
+            b2 = am.Box(avect=abc3[0], bvect=abc3[1], cvect=abc3[2], origin=oa)
+            check_box_against(rec, b2, ev, eo, True, L, 'forms:Box(avect..)', form=aform)
+            rec.check(all(same(k, x) for k, x in zip(keep, abc3 + [oa])), "the caller's vector objects are unchanged by Box(avect=, ...)",
+                      f'args-unchanged:Box(avect..):{aform}')
+            for x in abc3 + [oa]:
+                scribble(x)
+            check_box_against(rec, b2, ev, eo, True, L, 'forms:Box(avect..):after-caller-reuses-its-arrays', form=aform)
+            check_getters(rec, b2, 'forms:getters')
+            check_points(rec, b2, rng, C.SHAPES[i % len(C.SHAPES)], aform)
+        # scalars: lengths/tilts, lo/hi, lengths/angles
+        if cell['lammps']:
+            oa = A(o)
+            t = cast_scalars(truth_set(cell, 'lengths'), sform)
+            t['origin'] = oa
+            evs = G.vects_from_lammps(*[float(t[k]) for k in ('lx', 'ly', 'lz', 'xy', 'xz', 'yz')])
+            with ctx.guard('Box(lx=..) accepts the scalar form', f'forms:build:lengths:{sform}'):
+                b3 = am.Box(**t)
+                check_box_against(rec, b3, evs, eo, True, L, 'forms:Box(lx..)', form=sform)
+                scribble(oa)
+                check_box_against(rec, b3, evs, eo, True, L, 'forms:Box(lx..):after-caller-reuses-its-arrays', form=sform)
+            t = cast_scalars(truth_set(cell, 'hilo'), sform)
+            f = {k: float(x) for k, x in t.items()}
+            evh = G.vects_from_lammps(f['xhi'] - f['xlo'], f['yhi'] - f['ylo'], f['zhi'] - f['zlo'], f['xy'], f['xz'], f['yz'])
+            eoh = np.array([f['xlo'], f['ylo'], f['zlo']])
+            eps = float(np.finfo(np.float32 if sform == 'np.float32' else float).eps)
+            with ctx.guard('Box(xlo=..) accepts the scalar form', f'forms:build:hilo:{sform}'):
+                b4 = am.Box(**t)
+                tol = 1e-8 * L + 4 * eps * max(abs(x) for x in f.values())
+                rec.close(tol, b4.vects, evh, 'same vectors after forms:Box(xlo..)', 'forms:Box(xlo..):vects', form=sform)
+                rec.close(tol, b4.origin, eoh, 'same origin after forms:Box(xlo..)', 'forms:Box(xlo..):origin', form=sform)
+        t = truth_set(cell, 'abc')
+        if sform == 'int':
+            cell_o = dict(cell, vects=np.diag(np.diag(v)))
+            t = truth_set(cell_o, 'abc')
+            t.update(alpha=90, beta=90, gamma=90)
+        oa = A(o)
+        t = cast_scalars(t, sform)
+        t['origin'] = oa
+        with ctx.guard('Box(a=..) accepts the scalar form', f'forms:build:abc:{sform}'):
+            b5 = am.Box(**t)
+            check_box_against(rec, b5, abc_vects(t), eo, True, L, 'forms:Box(a..)', tol_rel=1e-5 if sform == 'np.float32' else 1e-8, form=sform)
+
+    # ---- histories: successive changes on ONE object interleaved with every kind of read ---------------------------
     n_hist = ctx.pick(200, 2400)
+    nC = len(CHANGES)
     for i in ctx.cases('histories', n_hist):
         rng = ctx.rng
         box = am.Box()
+        cur_v, cur_o = np.eye(3), np.zeros(3)
+        # a bystander object with its own cell stays alive and is read in between (state must be per object)
+        bcell = C.gen_cell(rng, C.KINDS[i % len(C.KINDS)], C.ORIGINS[(i // 3) % 3], 1.0)
+        bystander = am.Box(vects=bcell['vects'], origin=bcell['origin'])
+        bexp = dict(exp_v=bcell['vects'], exp_o=bcell['origin'], tol_rel=1e-8, tol_abs=0.0, op='bystander')
         ops = []
-        nops = int(rng.integers(3, 9))
+        nops = 3 + i % 6
+        # reads of the initial object (unit cube) so that whatever is lazily kept is populated before the first change
+        if i % 2 == 0:
+            exp0 = dict(exp_v=cur_v, exp_o=cur_o, tol_rel=1e-8, tol_abs=0.0, op='Box()', bv=box.vects, bo=box.origin)
+            full_read(rec, am, box, rng, exp0, i, -1, which=['planes', 'points', 'getters'], twin_checks=False)
         for step in range(nops):
-            kind = cells.KINDS[int(rng.integers(0, len(cells.KINDS)))]
-            cell = cells.gen_cell(rng, kind, cells.ORIGINS[int(rng.integers(0, 3))], 1.0)
-            choices = ['vects=', 'set(vects)', 'set_vectors', 'set_abc'] + (['set_lengths', 'set_hi_los', 'set(lx)', 'set(xlo)'] if cell['lammps'] else [])
-            op = choices[int(rng.integers(0, len(choices)))]
-            ops.append((op, kind))
-            if rng.random() < 0.7:
-                _ = box.reciprocal_vects            # populate the cache before the change
-                rec.count('history:cache-populated-before-set')
-            v, o = cell['vects'], cell['origin']
-            exp_v, exp_o, lam = v, o, cell['lammps']
+            op = CHANGES[(i + step * (1 + i // nC)) % nC]
+            aform = C.ARRAY_FORMS[(i + 3 * step) % len(C.ARRAY_FORMS)]
+            sform = C.SCALAR_FORMS[(i // 2 + step) % len(C.SCALAR_FORMS)]
+            oc = C.ORIGINS[(i // 4 + step) % len(C.ORIGINS)]
+            scale = C.SCALES[(i + step) % len(C.SCALES)]
+            cell = history_cell(rng, op, aform, sform, oc, scale)
+            ops.append((op, cell['kind'], aform if op not in SCALAR_OPS else sform))
+            rec.count('history:change:' + op)
+            if op in ORIGIN_ONLY:
+                rec.count('history:origin-only-change')
+            if op == 'vects=:partial':
+                rec.count('history:partial-change')
+            mode = 'full' if step == nops - 1 else ('full', 'full', 'none', 'subset')[(i + step) % 4]
+            rec.count('history:reads-after-change:' + mode)
             with ctx.guard(f'history step {op}', f'history:{op}'):
-                if op == 'vects=':
-                    box.vects = v
-                    exp_o = box.origin
-                elif op == 'set(vects)':
-                    box.set(vects=v, origin=o)
-                elif op == 'set_vectors':
-                    box.set_vectors(avect=v[0], bvect=v[1], cvect=v[2], origin=o)
-                elif op == 'set_abc':
-                    t = truth_set(cell, 'abc')
-                    box.set_abc(**t)
-                    exp_v = G.vects_from_lammps(*G.lammps_from_abc(*[t[k] for k in ('a', 'b', 'c', 'alpha', 'beta', 'gamma')]))
-                    lam = True
-                elif op == 'set_lengths':
-                    box.set_lengths(**truth_set(cell, 'lengths'))
-                elif op == 'set(lx)':
-                    box.set(**truth_set(cell, 'lengths'))
-                elif op == 'set_hi_los':
-                    box.set_hi_los(**truth_set(cell, 'hilo'))
-                elif op == 'set(xlo)':
-                    box.set(**truth_set(cell, 'hilo'))
-                check_box_against(rec, box, exp_v, exp_o, True, cell['L'], f'history:{op}', ops=ops)
-                check_getters(rec, box, 'history:getters')
-                check_points(rec, box, rng, 'N', as_list=False)
-        rec.case(('history', nops, tuple(o_[0] for o_ in ops)), nontrivial=nops >= 3, fp=fingerprint(ops, i, ctx.seed))
+                res = apply_change(box, op, cell, cur_v, cur_o, aform, sform, rng)
+                cur_v, cur_o = res['exp_v'], res['exp_o']
+                # the caller goes on to use its own arrays: the object must not follow
+                for a_ in res['args']:
+                    scribble(a_)
+                exp = dict(res, op=op)
+                bv, bo = judge_state(rec, box, cur_v, cur_o, res['tol_rel'], res['tol_abs'], f'history:{op}', ops=ops)
+                exp.update(bv=bv, bo=bo)
+                # the cell the object is in now (judged above within the bound of this step) is what an origin-only
+                # or vectors-only change must leave untouched
+                cur_v, cur_o = bv.copy(), bo.copy()
+                if mode == 'none':
+                    continue
+                which = None if mode == 'full' else [READS[int(k)] for k in rng.choice(len(READS), 2, replace=False)]
+                handed = full_read(rec, am, box, rng, exp, i, step, which=which)
+                # the caller goes on to use the arrays it was handed: the object must not follow
+                for h in handed:
+                    scribble(h)
+                judge_state(rec, box, cur_v, cur_o, 1e-12, 0.0, 'history:after-caller-reuses-returned-arrays', op=op)
+                if (i + step) % 2 == 0:
+                    bexp.update(bv=bystander.vects, bo=bystander.origin)
+                    rec.count('history:bystander-read')
+                    full_read(rec, am, bystander, rng, bexp, i, step, which=['state', 'planes', 'points', 'getters'], twin_checks=False)
+        rec.case(('history', nops, tuple(o_[0] for o_ in ops)), nontrivial=True, fp=fingerprint(ops, i, ctx.seed))
         if i < 16:
             rec.sample(dict(ops=ops))
 
     for k, v_ in monitor.calls.items():
         if isinstance(v_, int):
             rec.count('monitor_calls:' + k, v_)
-    rec.floor('monitor_calls:Box.position_cartesian_to_relative', 100)
-    rec.floor('monitor_calls:Box.position_relative_to_cartesian', 100)
+    for k in ('position_cartesian_to_relative', 'position_relative_to_cartesian', 'inside', 'set', 'set_vectors', 'set_abc', 'set_lengths',
+              'set_hi_los', 'vects:set', 'origin:set', 'planes:get', 'reciprocal_vects:get'):
+        rec.floor('monitor_calls:Box.' + k, 100)
+    rec.floor('monitor_calls:Shape.outside', 100)
+    rec.floor('monitor_calls:Plane.below', 600)
     rec.floor('monitor:vects-setter', 100)
-    rec.floor('history:cache-populated-before-set', 20)
-    rec.floor('points_inside', 50)
-    rec.floor('points_outside', 50)
+    rec.floor('monitor:origin-setter', 100)
+    rec.floor('monitor:planes-getter', 100)
+    rec.floor('monitor:reciprocal-getter', 100)
+    rec.floor('monitor:inside:points-judged', 1000)
+    rec.floor('monitor:outside:points-judged', 1000)
+    rec.floor('monitor:plane:points-judged', 1000)
+    rec.floor('points_inside', 500)
+    rec.floor('points_outside', 500)
     rec.floor('pairs', 100)
+    rec.floor('planes-judged', 500)
+    rec.floor('family-constructors', 100)
+    rec.floor('faces-exact:cells', 60)
+    rec.floor('faces-exact:points', 2000)
+    rec.floor('history:exact-faces', 20)
+    for oc in C.ORIGINS:
+        rec.floor('cells:origin:' + oc, 60)
+        rec.floor('faces-exact:origin:' + oc, 5)
+    for s in C.SCALES:
+        rec.floor(f'cells:scale:{s:g}', 60)
+    for f_ in C.ARRAY_FORMS:
+        rec.floor('points-form:' + f_, 60)
+        rec.floor('forms:array:' + f_, 10)
+    for s in C.SHAPES:
+        rec.floor('points-shape:' + s, 60)
+    for s in C.SCALAR_FORMS:
+        rec.floor('forms:scalar:' + s, 20)
+    for c in CHANGES:
+        rec.floor('history:change:' + c, 20)
+    rec.floor('history:partial-change', 20)
+    rec.floor('history:origin-only-change', 150)
+    for r in READS:
+        rec.floor('history:read:' + r, 150)
+    for m in ('full', 'none', 'subset'):
+        rec.floor('history:reads-after-change:' + m, 100)
+    rec.floor('history:bystander-read', 100)
+    rec.floor('twin:points-compared', 300)
+    rec.floor('twin:getters-compared', 300)
+    # the caller's-arguments clause was evaluated for every entry point in the forms that can alias the caller's memory
+    for entry in ('rel2cart', 'cart2rel', 'inside', 'outside', 'Plane.below'):
+        for form in ('float64', 'float64-view', 'float64-ro', 'float32', 'int64', 'int32', 'list', 'tuple'):
+            rec.floor(f'args:{entry}:{form}', 20)
+    for entry in ('vects=', 'origin=', 'set_vectors', 'set'):
+        for form in ('float64', 'float32', 'int64', 'list', 'tuple'):
+            rec.floor(f'args:{entry}:{form}', 10)
+    for entry in ('set_abc', 'set_lengths'):
+        rec.floor(f'args:{entry}:float64', 10)
